@@ -348,6 +348,6 @@ func classifySdp(c SdpCase) (bool, []string) {
 func TestSdp(t *testing.T) {
 	pbt.Run(t, pbt.Spec[SdpCase]{
 		ID: "C19", Name: "sdp", Gen: genSdp, Run: runSdp, Classify: classifySdp,
-		Quick: 2500, Thorough: 20000,
+		Quick: 5000, Thorough: 20000,
 	})
 }
